@@ -261,6 +261,40 @@ def legacy_run(c):
     for n in names:
         c.holds(f'{n}:after_warmup:two_columns', r3[n].samples.shape[-1] == 2 and r4[n].samples.shape[-1] == 2, note=f"{r3[n].samples.shape} {r4[n].samples.shape}")
         c.eq(f'{n}:after_warmup:split_run_same_chain', r4[n].samples, r3[n].samples)
+    # split position 0: sample(0) then sample(2) is sample(2); warm-up only, then sampling, is sample(2, Nb=1)
+    G5, _ = mk(); G5.sample(0); r5 = G5.sample(2)
+    G6, _ = mk(); G6.sample(0, 1); r6 = G6.sample(2)
+    for n in names:
+        c.eq(f'{n}:empty_first_call:split_run_same_chain', r5[n].samples, r1[n].samples)
+        c.eq(f'{n}:warmup_only_first_call:split_run_same_chain', r6[n].samples, r3[n].samples)
+
+
+def sampler_objects(c, case):
+    """HybridGibbs keeps each block's state inside that block's sampler object: one object serving two blocks, or objects still holding the state of an
+    earlier run, cannot start 'from that block's current value' - such a construction must be refused, or the first sweep must start every block at the
+    NEW run's initial value (bounded stand-in: native)"""
+    import io, contextlib
+    from cuqi.distribution import Gaussian, JointDistribution
+    import cuqi.experimental.mcmc as EX
+    def joint():
+        a = Gaussian(np.zeros(1), 1.0, name='a'); b = Gaussian(lambda a: a, 1.0, geometry=1, name='b')
+        return JointDistribution(a, b)
+    seed = int(c.real('seed', lo=0, hi=10 ** 6)); np.random.seed(seed)
+    with contextlib.redirect_stdout(io.StringIO()), contextlib.redirect_stderr(io.StringIO()):
+        if case == 'one_object_for_two_blocks':
+            mh = EX.MH(scale=0.5)
+            c.expect_raise('construction_refused', lambda: EX.HybridGibbs(joint(), {'a': mh, 'b': mh}))
+        else:
+            sa, sb = EX.MH(scale=0.5, initial_point=np.array([50.0])), EX.MH(scale=0.5, initial_point=np.array([-50.0]))
+            G1 = EX.HybridGibbs(joint(), {'a': sa, 'b': sb}); G1.sample(3)
+            sa.initial_point = np.array([0.25]); sb.initial_point = np.array([-0.25])
+            try: G2 = EX.HybridGibbs(joint(), {'a': sa, 'b': sb})
+            except Exception:
+                c.holds('reuse_refused', True); return
+            # accepted: the first sweep must start every block at the new initial value (a unit-scale step cannot move far from it)
+            G2.sample(1)
+            S = G2.get_samples()
+            c.holds('first_sweep_starts_from_the_new_initial_values', bool(abs(S['a'].samples[0, 0]) < 10 and abs(S['b'].samples[0, 0]) < 10), note=f"{S['a'].samples[0, 0]}, {S['b'].samples[0, 0]}")
 
 
 def jobs(tier):
@@ -282,4 +316,6 @@ def jobs(tier):
     for k in (2, 3):
         J.append(Job(f'legacy.Gibbs.sweep:blocks={k}', lambda c, k=k: legacy_sweep(c, k), 'Pbox', LG))
     J.append(Job('legacy.Gibbs:stored_columns_and_continuation', legacy_run, 'Pbox', LG))
+    for case in ('one_object_for_two_blocks', 'objects_of_a_finished_run'):
+        J.append(Job(f'HybridGibbs:sampler_objects:{case}', lambda c, case=case: sampler_objects(c, case), 'B', ['cuqi.experimental.mcmc._gibbs:HybridGibbs._initialize_samplers', 'cuqi.experimental.mcmc._sampler:Sampler.initialize'], nnum=2))
     return J
